@@ -91,13 +91,16 @@ impl S3Storage {
                 //8 bytes
                 keys_file.put_slice(&value_addr.to_le_bytes());
                 let key_size = get_key_disk_size(key.len());
-                db.set_value_as_ok(
-                    &key,
-                    &value,
-                    value_addr,
-                    next_key_addr,
-                    Databases::next_op_log_id(),
-                );
+                // A removed key stays removed in memory: marking it Ok would turn it into a live key
+                if value.state != ValueStatus::Deleted {
+                    db.set_value_as_ok(
+                        &key,
+                        &value,
+                        value_addr,
+                        next_key_addr,
+                        Databases::next_op_log_id(),
+                    );
+                }
                 value_addr = value_addr + record_size;
                 log::debug!("Next Value addr: {}", value_addr);
                 next_key_addr = next_key_addr + key_size;
